@@ -31,3 +31,6 @@ def run(ctx):
     ctx.run("C09.ABORT-DOM", "R-ORDER", par.c09_abort_dom)
     ctx.run("C01.FLATTEN", "R-ORDER", par.c01_flatten)
     ctx.run("C01.STOP", "R-FLOW", par.c01_stop)
+    ctx.run("C01.EACH-ONCE", "R-FLOW/R-ORDER", par.c01_each_once)
+    ctx.run("C01.LOCK", "R-LOCK", par.c01_lock)
+    ctx.run("C01.REG-BEFORE-SUBMIT", "R-ORDER", par.c01_reg_before_submit)
